@@ -44,7 +44,7 @@ def strategy(tier):
         spec, focus = draw(gen.specs_and_focus(opts, 10))
         rec = draw(gen.recipes(spec, max_rows=8, reload_ok=False, focus=focus, inf_weights=True))
         return {"spec": spec, "state": rec, "site": draw(st.integers(0, 10**6)), "as_string": draw(st.booleans()),
-                "prefer": draw(st.sampled_from((None, None, None, None, "typetag")))}
+                "prefer": draw(st.sampled_from((None, None, None, None, "typetag", "container")))}
 
     return cases()
 
@@ -62,8 +62,11 @@ def check(case):
     ss = jsonmut.sites(doc)
     prefer = case.get("prefer")
     if prefer:
-        # (type tags are few among the sites of a document: a fifth of the cases mutate one of them)
-        sub = [x for x in ss if x[1] == "set" and isinstance(x[2], (list, tuple)) and x[2][1] == jsonmut.UNKNOWN_TYPE]
+        # (type tags and child containers are few among the sites of a document: a sixth of the cases each mutate one)
+        if prefer == "typetag":
+            sub = [x for x in ss if x[1] == "set" and isinstance(x[2], (list, tuple)) and x[2][1] == jsonmut.UNKNOWN_TYPE]
+        else:  # "container": the list / map that holds the children is replaced as a whole
+            sub = [x for x in ss if x[1] == "set" and isinstance(x[2], (list, tuple)) and x[2][0] in ("data", "bins", "values") and not isinstance(x[0][-1] if x[0] else None, int)]
         ss = sub or ss
     site = ss[case["site"] % len(ss)]
     bad = jsonmut.apply(doc, site)
